@@ -22,7 +22,9 @@ def sig(r):
 
 
 def bins():
-    return {False: vf.build('c09', ['c09.cpp']), True: vf.build('c09o', ['c09.cpp'], flags=['-DORDERED'])}
+    # built with AddressSanitizer: an operation that reads a part of its own target after freeing it (a = a[0]) mostly still "works" without it
+    san = ['-g', '-fsanitize=address', '-fno-omit-frame-pointer']
+    return {False: vf.build('c09', ['c09.cpp'], cxx='clang++', flags=san), True: vf.build('c09o', ['c09.cpp'], cxx='clang++', flags=san + ['-DORDERED'])}
 
 
 def setup():
@@ -34,6 +36,8 @@ def setup():
 
 
 def run(tier):
+    # a sanitizer report aborts the process (SIGABRT), so the harness names the case in flight and the driver reproduces it
+    os.environ.setdefault('ASAN_OPTIONS', 'abort_on_error=1:detect_leaks=0:handle_abort=0:handle_segv=0:allocator_may_return_null=1')
     rep = vf.Report(PROP, tier)
     b = bins()
     totals = {}
@@ -44,6 +48,12 @@ def run(tier):
         for k, v in t.items():
             totals[k] = totals.get(k, 0) + v
         samples += vf.sample_lines(g[0], 1)
+    # (c) range insertion of many pairs with repeated keys (first wins, existing wins)
+    for c, ordered in (('gen/MC_C09range_json.cfg', False), ('gen/MC_C09range_ojson.cfg', True)):
+        g = vf.tlc_gen('gen/MC_C09range', c, timeout=600)
+        t = vf.g_replay(rep, b[ordered], [g], sig)
+        for k, v in t.items():
+            totals[k] = totals.get(k, 0) + v
     # (b) relational laws: observations of the real operators validated by Trace_C09 (V binding)
     bl = vf.build('c09laws', ['c09laws.cpp'])
     gl = vf.tlc_gen('gen/MC_C09laws', 'gen/MC_C09laws.cfg', timeout=600)
@@ -85,6 +95,7 @@ def run(tier):
 
 
 def replay(path):
+    os.environ.setdefault('ASAN_OPTIONS', 'abort_on_error=1:detect_leaks=0:handle_abort=0:handle_segv=0:allocator_may_return_null=1')
     d = json.load(open(path))
     b = bins()
     bad = []
